@@ -372,6 +372,16 @@ def oracle(run, focus, sc, ar, cj):
                             "timed source %d placed an event in the queue after the cancelling call had returned" % ti, cj)
             if t["flag"]:
                 run.violate("C11/not-cancelled", "timed source %d still has its run flag set after it was cancelled" % ti, cj)
+            if cj.get("eager") and not total and ti in created_at and cancelled_after[ti] < len(trace):
+                # armed for ever and cancelled later: under a lazy clock every post that was due well before the cancelling call
+                # returned has happened (a source that ended by itself after its first post is seen here)
+                t0c = created_at[ti]
+                first_c = t0c + period if deferred else t0c
+                t_done = int(trace[cancelled_after[ti]][4])
+                due = [first_c + j * period for j in range(1000) if first_c + j * period < t_done - period]
+                if len(t["placed"]) < len(due):
+                    run.violate("C10/missing-post", "timed source %d (period %d, times 0 / None: for ever, created at %d, cancelled by a call that returned at "
+                                "%d) posted at %s, expected at least %s" % (ti, period, t0c, t_done, t["placed"], due), cj)
             continue
         # not cancelled: C10 count and instants
         t0 = created_at.get(ti, 0)
